@@ -171,7 +171,9 @@ class BaseValidator(object):
                 for check_name in self.cid.check_names:
                     try:
                         self.cid.check_map[check_name].check_at_end(self.location)
-                    except errors.CheckError as error:
+                    except errors.CutplaceError as error:
+                        # NOTE: Typically this is a CheckError but checks might build on other parts of cutplace and
+                        #  for example raise a RangeValueError.
                         if first_error is None:
                             first_error = error
                 if first_error is not None:
